@@ -44,6 +44,35 @@ def use_repo() -> None:
         sys.path.remove(p)
     sys.path.insert(0, p)
     os.environ.setdefault(GUARD, "1")
+    _maybe_cover()
+
+
+_COV = None
+
+
+def _maybe_cover() -> None:
+    """Development aid (tools/coverage.sh), never used by a registered command: with VF_COVERAGE_DIR set, every
+    harness process that imports the tree under test records line/branch coverage of tensora there, so that the
+    parts of the implementation no check ever executes can be listed."""
+    global _COV
+    d = os.environ.get("VF_COVERAGE_DIR")
+    if not d or _COV is not None:
+        return
+    try:
+        import atexit
+
+        import coverage
+    except ImportError:
+        return
+    _COV = coverage.Coverage(data_file=os.path.join(d, "cov"), data_suffix=True, branch=True,
+                             include=[str(SRC / "tensora" / "*")])
+    _COV.start()
+
+    def _save():
+        _COV.stop()
+        _COV.save()
+
+    atexit.register(_save)
 
 
 def source_hash() -> str:
